@@ -416,7 +416,7 @@ PROPS = {
         "harnesses": [
             {"func": "VerifConvert", "pkg": CONV, "pkgname": "conversions", "load": ["./node/conversions"],
              "must_cover": ["specified-error", "overflow-error", "converted-pip10", "converted-legacy"]},
-        ] + HOLDING_HARNESSES + TXBLOCK_HARNESSES[:1] + [SYNCBLOCK, BATCH_HARNESSES[1], RESTARTCHAIN, AVGABS],
+        ] + HOLDING_HARNESSES + TXBLOCK_HARNESSES[:1] + [dict(SYNCBLOCK, params={"quick": {"pegsource": 1}, "thorough": {"pegsource": 1}}), BATCH_HARNESSES[1], RESTARTCHAIN, AVGABS],
         "bounds": {"quick": "Convert: amount int64, four rates uint64, height uint32 - full ranges, no loop"},
         "assumptions": ["math/big modelled as mathematical integers (Div/Quo by q,r form)"],
     },
